@@ -1,5 +1,6 @@
 import FoxModel.Util
 import FoxModel.Model.LRU
+import FoxModel.Model.LRURing
 /-
   FoxModel.Driver.LRU — line-protocol handler of stream `lru` (property C03): internal/simplelru driven through the
   hook `VerifLRURun`.
@@ -58,6 +59,14 @@ def handle (fields : List String) : String :=
     let ops := ops.filterMap id
     let (_, outs) := run (empty capS.toNat!) ops
     let tags := (ops.zip outs).foldl (fun ts (o, r) => let t := opTag o r; if ts.contains t then ts else ts ++ [t]) []
+    -- short Add / Get sequences are also run on the pointer-ring model of list.go (theorem: same answers, never a nil)
+    let tops := ops.filterMap fun o => match o with
+      | .add k v => some (Ring.TOp.add k v) | .get k => some (Ring.TOp.get k) | _ => none
+    let tags := if tops.length == ops.length && ops.length ≤ 300 then
+        (match Ring.run (Ring.new capS.toNat!) tops with
+         | some (_, ro) => if ro == outs then tags ++ ["ring=list"] else tags ++ ["ring-vs-list"]
+         | none => tags ++ ["ring-vs-list"])
+      else tags
     "M=" ++ join (outs.map showOut) ";" ++ "\tS=" ++ join (outs.map fun _ => "sound") ";" ++ "\tT=" ++ join tags ","
   | _ => "M=bad-case"
 
